@@ -175,3 +175,61 @@ Definition encode_compressed_ghost (T : descs) (vals : list (list value))
   let* (outs, g) := run_compressed gc_prims T (length vals)
                       (mkGC (mkE [] vals 0 0) (repeat [] (length vals))) in
   Ok (outs, e_w (gce g), gch g).
+
+(* ============================================================================
+   The STRICT ghost, for the transparency theorem (RoundTripC/TransparentC):
+   the same encoder, refusing in addition the three situations in which the
+   compressed and the uncompressed form of the same values legitimately read
+   back differently:
+     (a) a one-bit element with a missing entry in some but not all subsets
+         (known finding D18: uncompressed, the missing entry reads back as 1);
+     (b) an "all equal" numeric column whose entries are equal as numbers but
+         not identical as objects (3 and 3.0): the compressed encoder scales
+         values[0] only, the uncompressed one every entry;
+     (c) a bitmap that is not the same in every subset: the compressed coder
+         takes it from the first subset.
+   ============================================================================ *)
+Definition value_seqb (a b : value) : bool :=
+  match a, b with
+  | VNone, VNone => true
+  | VInt x, VInt y => (x =? y)%Z
+  | VDec m s, VDec m' s' => (m =? m')%Z && (s =? s')%Z
+  | VDyad m e, VDyad m' e' => (m =? m')%Z && (e =? e')%Z
+  | VBytes x, VBytes y => col_bytes_eqb x y
+  | _, _ => false
+  end.
+
+Definition all_same (all_equal : bool) (col : list value) : bool :=
+  if all_equal then match col with v0 :: _ => forallb (value_seqb v0) col | [] => true end else true.
+
+Definition onebit_ok (w : Z) (raws : list (option Z)) : bool :=
+  negb ((w =? 1)%Z && existsb opt_is_none raws && negb (col_all_none raws)).
+
+Definition gcs_numeric (nbits scale refval : Z) (g : gcstate) : result gcstate :=
+  let* (p, _) := next_column (gce g) in
+  let '(col, all_equal) := p in
+  let* raws := numeric_raws scale refval col all_equal in
+  if negb (all_same all_equal col && onebit_ok nbits raws) then Err EOther
+  else gc_numeric nbits scale refval g.
+
+Definition gcs_codeflag (nbits dnbits : Z) (g : gcstate) : result gcstate :=
+  let* (p, _) := next_column (gce g) in
+  let '(col, all_equal) := p in
+  let* raws := codeflag_raws col in
+  if negb (onebit_ok nbits raws) then Err EOther else gc_codeflag nbits dnbits g.
+
+Definition bools_eqb (a b : list bool) : bool :=
+  if list_eq_dec Bool.bool_dec a b then true else false.
+
+Definition gcs_bitmap (k : Z) (g : gcstate) : result (list bool) :=
+  let* bm := gc_bitmap k g in
+  if forallb (fun l => bools_eqb (map value_is_zero (last_n k l)) bm) (gch g) then Ok bm else Err EOther.
+
+Definition gcs_prims : prims gcstate :=
+  mkPrims gcstate gcs_numeric gc_string gcs_codeflag gc_new_refval gc_constant gc_factor gcs_bitmap.
+
+Definition encode_compressed_ghost_strict (T : descs) (vals : list (list value))
+  : result (list subset_out * writer * list (list value)) :=
+  let* (outs, g) := run_compressed gcs_prims T (length vals)
+                      (mkGC (mkE [] vals 0 0) (repeat [] (length vals))) in
+  Ok (outs, e_w (gce g), gch g).
